@@ -545,6 +545,14 @@ def s_remove_and_test(P, E):
           if any(rk == "param" and rd == 1 and path[:1] == ("unscribers",) for (rk, rd, path) in a["cell"])}
     rem = [c for c in b.calls if c.path == "std::collections::HashMap::remove"]
     tst = [c for c in b.calls if c.path in ("std::collections::HashMap::len", "std::collections::HashMap::is_empty")]
+    # first of all: ONE exclusive critical section on the map (whatever the test looks like)
+    r.instance((b.nid, "critical section"), True, "unscribers acquisitions %s" % {k: v["mode"] for k, v in ua.items()})
+    if len(ua) != 1 or list(ua.values())[0]["mode"] not in ("W", "M"):
+        r.violate((b.nid, "remove and emptiness test under different guards"),
+                  "sink_complete does not remove its entry and decide `last one out` in ONE write-locked section of the map "
+                  "(acquisitions: %s): two inputs completing together can both, or neither, see themselves as the last"
+                  % [v["mode"] for v in ua.values()], body=b)
+        return r
     if not rem or not tst:
         r.error("anchor missing: remove/len on unscribers in sink_complete")
         return r
